@@ -1077,9 +1077,10 @@ fn run(op_full: &str, a: &[&str]) -> String {
             let sel = Selector::new(jp, mode_of(a[2]));
             let root = unhex(a[0]);
             let mut o: Vec<u64> = vec![];
+            // on Err too: the data AND the offsets as the call left them
             match sel.select(&root, &mut buf, &mut o) {
                 Ok(()) => format!("ok {} {}", hex(&buf), offs(&o)),
-                Err(e) => format!("err {} {}", err_kind(&e), hex(&buf)),
+                Err(e) => format!("err {} {} {}", err_kind(&e), hex(&buf), offs(&o)),
             }
         }
         "sel_exists" => {
@@ -1109,7 +1110,7 @@ fn run(op_full: &str, a: &[&str]) -> String {
             };
             match r {
                 Ok(()) => format!("ok {} {}", hex(&buf), offs(&o)),
-                Err(e) => format!("err {} {}", err_kind(&e), hex(&buf)),
+                Err(e) => format!("err {} {} {}", err_kind(&e), hex(&buf), offs(&o)),
             }
         }
         // several selections into ONE data buffer and ONE offsets vector (what a caller filling a column does)
